@@ -18,7 +18,7 @@
  * @param rdlen the rlden of the rr, to avoid reading beyond the record
  * @return the number of bytes read from rdata, or -1 in case of errors
  */
-static uint16_t dnsreadcharstring(char *dest, const u_char *rdata, uint16_t offset, uint16_t rdlen) {
+static int dnsreadcharstring(char *dest, const u_char *rdata, uint16_t offset, uint16_t rdlen) {
     uint16_t len;
 
     len = *(rdata + offset++);
